@@ -44,6 +44,48 @@ def fn_mode(prog, bounds, variant='entrait', opts_only=None, fixed=(), name='foo
     return setup
 
 
+def mod_mode(prog, bounds, variant='entrait', opts_only=None, fixed=(), max_items=2, with_spec=True):
+    gen = inputs.Gen(prog, bounds)
+    set_fixed(prog, fixed)
+
+    def setup(ex):
+        attr = gen.fn_attr('attr', opts_only, 'Foo')
+        item = inputs.input_mod(gen, 'mod', max_items)
+        ex.notes['input'] = dict(mode='mod', variant=variant, gen=gen, opts_only=opts_only, max_items=max_items)
+
+        def target(ex, attr, item):
+            attr0, item0 = clone_val(attr), clone_val(item)
+            apply_variant(ex, variant, Ptr(attr.fields, attr.names.index('opts')))
+            out = ex.run_body(prog.bodies['entrait_for_mod'], [new_cell(attr), item])
+            if with_spec:
+                from . import spec
+                ex.notes['obligations'] = spec.spec_mod_mode(ex, variant, attr0, item0, out)
+            return out
+        return target, [attr, item]
+    return setup
+
+
+def impl_mode(prog, bounds, sl, with_spec=True):
+    gen = inputs.Gen(prog, bounds)
+    set_fixed(prog, sl.get('fixed', ()))
+    max_items = sl.get('max_items', 2)
+
+    def setup(ex):
+        attr = inputs.impl_attr(gen, 'attr')
+        item = inputs.input_impl(gen, 'impl', max_items)
+        ex.notes['input'] = dict(mode='impl', variant='entrait', gen=gen, max_items=max_items)
+
+        def target(ex, attr, item):
+            attr0, item0 = clone_val(attr), clone_val(item)
+            out = ex.run_body(prog.bodies['output_tokens_for_impl'], [attr, item])
+            if with_spec:
+                from . import spec
+                ex.notes['obligations'] = spec.spec_impl_mode(ex, attr0, item0, out)
+            return out
+        return target, [attr, item]
+    return setup
+
+
 def rebuild_input(prog, pr):
     """deterministically re-create (attr, item) of a finished path, fully resolved: decisions of the path, default
     (first) alternative for everything the macro never looked at"""
@@ -56,6 +98,15 @@ def rebuild_input(prog, pr):
     if info['mode'] == 'fn':
         attr = gen.fn_attr('attr', info['opts_only'], info['trait_name'])
         item = gen.input_fn('fn', info['name'])
+    elif info['mode'] == 'mod':
+        attr = gen.fn_attr('attr', info['opts_only'], 'Foo')
+        item = inputs.input_mod(gen, 'mod', info['max_items'])
+    elif info['mode'] == 'impl':
+        attr = inputs.impl_attr(gen, 'attr')
+        item = inputs.input_impl(gen, 'impl', info['max_items'])
+    elif info['mode'] == 'trait':
+        attr = inputs.trait_attr(gen, 'attr', info['sl'])
+        item = inputs.input_trait(gen, 'trait', info['sl'])
     else:
         raise Unsupported('rebuild for mode ' + info['mode'])
     inputs.deep_force(ex, attr)
@@ -73,4 +124,57 @@ def item_tokens(prog, mode, item, P):
         P.node(item.f('fn_sig'), toks)
         toks += P.flat(item.f('fn_body').toks)
         return toks
+    if mode == 'mod':
+        toks = []
+        for a in item.f('attrs').items:
+            P.node(a, toks)
+        P.node(item.f('vis'), toks)
+        P.ident(toks, 'mod')
+        P.node(item.f('ident'), toks)
+        inner = []
+        for it in item.f('items').items:
+            inner += mod_item_tokens(it, P)
+        toks.append(('G', '{', inner, 'input'))
+        return toks
+    if mode == 'impl':
+        toks = []
+        for a in item.f('attrs').items:
+            P.node(a, toks)
+        P.node(item.f('unsafety'), toks)
+        P.ident(toks, 'impl')
+        P.node(item.f('trait_path'), toks)
+        P.ident(toks, 'for')
+        P.node(item.f('self_ty'), toks)
+        inner = []
+        for it in item.f('items').items:
+            inner += mod_item_tokens(it, P)
+        toks.append(('G', '{', inner, 'input'))
+        return toks
+    if mode == 'trait':
+        toks = []
+        P.node(item, toks)
+        return toks
     raise Unsupported('item_tokens for ' + mode)
+
+
+def mod_item_tokens(it, P):
+    toks = []
+    inner = it.fields[0]
+    if it.variant in ('PubFn', 'Fn'):
+        f = inner.fields[0]
+        for a in f.f('fn_attrs').items:
+            P.node(a, toks)
+        P.node(f.f('fn_vis'), toks)
+        P.node(f.f('fn_sig'), toks)
+        toks += P.flat(f.f('fn_body').toks)
+    else:
+        for a in inner.f('attrs').items:
+            P.node(a, toks)
+        P.node(inner.f('vis'), toks)
+        toks += P.flat(inner.f('tokens').toks)
+    return toks
+
+
+def impl_attr_source(attr, model):
+    k = attr.f('impl_kind')
+    return 'ref' if k.variant == 'DynRef' else ''
